@@ -112,7 +112,15 @@ func checkAccept(f *fox.Router, s string, l limits) (bool, bool, string, string)
 	if pv != nil {
 		return false, false, "panic", fmt.Sprintf("NewRoute(%q) panicked: %v", s, pv)
 	}
-	p, rerr := ref.Parse(s, ref.Limits{MaxParams: l.MaxParams, MaxKeyBytes: l.MaxKey})
+	// the default limits are the width of their type
+	rl := ref.Limits{MaxParams: l.MaxParams, MaxKeyBytes: l.MaxKey}
+	if rl.MaxParams < 0 {
+		rl.MaxParams = 65535
+	}
+	if rl.MaxKeyBytes < 0 {
+		rl.MaxKeyBytes = 65535
+	}
+	p, rerr := ref.Parse(s, rl)
 	if rerr == nil && p.Gray != "" {
 		return true, err == nil, "", ""
 	}
@@ -343,7 +351,7 @@ func runGrammar(c *mc.Ctx, r *mc.Result) {
 // runBytes: crash-freedom and reference agreement on arbitrary bytes.
 func runBytes(c *mc.Ctx, r *mc.Result) {
 	seeds := []string{"/a/{b}/c", "/*{w}/x", "a.b/c", "{h}.b/{x}", "/a*{w}", "a-1.b/", "/{x}/*{y}/z", "/a/b", "ab.{c}.d/e/*{f}", "/{ab}/c{d}"}
-	r.Bounds["bytes"] = fmt.Sprintf("every 1- and 2-byte string over all 256 byte values (prefixed with nothing and with '/'), and every single-byte substitution (256 values) at every position of %d seed patterns; hostname labels of 61..66 bytes and hostnames of 250..260 bytes in 7 arrangements of letters, digits, hyphens and underscores; patterns with 65534..131072 wildcards (3 shapes) against the parameter limits 65534, 65535 and the default", len(seeds))
+	r.Bounds["bytes"] = fmt.Sprintf("every 1- and 2-byte string over all 256 byte values (prefixed with nothing and with '/'), and every single-byte substitution (256 values) at every position of %d seed patterns; hostname labels of 61..66 bytes and hostnames of 250..260 bytes in 7 arrangements of letters, digits, hyphens and underscores; patterns of 7..196608 bytes in 5 shapes under 8 limit sets; patterns with 65534..131072 wildcards (3 shapes) against the parameter limits 65534, 65535 and the default", len(seeds))
 	f := router(limits{-1, -1})
 	try := func(s string) {
 		r.Evaluations++
@@ -416,6 +424,48 @@ func runBytes(c *mc.Ctx, r *mc.Result) {
 				labels = append(labels, label(total-246, style%4)) // 4..14 bytes
 				try(strings.Join(labels, ".") + "/")
 				r.DistinctNontrivial++
+			}
+		}
+	}
+	// long patterns under small and default limits: no length rule exists besides the hostname ones, so a
+	// pattern of any length that follows the grammar and the configured limits is accepted by NewRoute and
+	// by Handle, and one that exceeds them is rejected: a ladder of lengths around every power of two up
+	// to 2^17 in 5 shapes (static text, one-byte parameters, long-key parameters, static text before a
+	// catch-all, hostname plus long path)
+	if c.Mine(1) {
+		longShape := func(n, shape int) string {
+			switch shape {
+			case 1:
+				return strings.Repeat("/{a}", n/4) + "/"
+			case 2:
+				return "/{" + strings.Repeat("k", max(n-3, 1)) + "}"
+			case 3:
+				return "/" + strings.Repeat("b", max(n-5, 1)) + "*{w}"
+			case 4:
+				return "a.b/" + strings.Repeat("c", n)
+			}
+			return "/" + strings.Repeat("a", n)
+		}
+		for _, l := range []limits{{-1, -1}, {0, -1}, {1, -1}, {-1, 1}, {1, 1}, {2000, 1}, {40000, 1}, {3, 20000}} {
+			fl := router(l)
+			for e := 3; e <= 17; e++ {
+				for _, n := range []int{1<<e - 1, 1 << e, 1<<e + 1, 3 << (e - 1)} {
+					for shape := 0; shape < 5; shape++ {
+						pat := longShape(n, shape)
+						r.Evaluations++
+						r.DistinctNontrivial++
+						_, acc, class, msg := checkAccept(fl, pat, l)
+						if class == "" {
+							class, msg = checkRegister(pat, l, acc)
+						}
+						if class != "" {
+							if len(msg) > 600 {
+								msg = msg[:300] + " … " + msg[len(msg)-300:]
+							}
+							r.Violate("bytes", class, fmt.Sprintf("long pattern (shape %d, %d bytes): %s", shape, len(pat), msg), Case{Pattern: []byte(pat), Lim: l})
+						}
+					}
+				}
 			}
 		}
 	}
